@@ -38,10 +38,43 @@ package security
 //@     invariant granted <==> (exists k int :: 0 <= k && k <= $i && aclApplies(acl[k].Resource, acl[k].Action, resource, action))
 //@     decreases len(acl) - $i
 
-//@ assumed (*ServiceCore).GetAccessControls
+// ---------------------------------------------------------------------------
+// Model of sync.Map (ASSUMED, library): the content of every sync.Map is a function of a global version counter $smVer that
+// every write operation advances; keys are strings in this package. Load reads the entry, Store / Delete change exactly
+// the entry of their key in their map and leave every other entry of every map alone.
+//@ ghost $smVer int
+//@ spec smHas(ver int, m int, k string) bool
+//@ spec smGet(ver int, m int, k string) iface
+//@ assumed (*sync.Map).Load
+//@   pure
+//@   ensures typeof(key) == typeid("string") ==> ret1 == smHas($smVer, m, cast(key, "string")) && (ret1 ==> ret0 == smGet($smVer, m, cast(key, "string")))
+//@   ensures !ret1 ==> ret0 == nil
+//@ assumed (*sync.Map).Store
+//@   modifies $smVer
+//@   ensures typeof(key) == typeid("string") ==> smHas($smVer, m, cast(key, "string")) && smGet($smVer, m, cast(key, "string")) == value
+//@   ensures forall m2 int, k2 string :: (m2 != m || typeof(key) != typeid("string") || k2 != cast(key, "string")) ==> smHas($smVer, m2, k2) == smHas(old($smVer), m2, k2) && smGet($smVer, m2, k2) == smGet(old($smVer), m2, k2)
+//@ assumed (*sync.Map).Delete
+//@   modifies $smVer
+//@   ensures typeof(key) == typeid("string") ==> !smHas($smVer, m, cast(key, "string"))
+//@   ensures forall m2 int, k2 string :: (m2 != m || typeof(key) != typeid("string") || k2 != cast(key, "string")) ==> smHas($smVer, m2, k2) == smHas(old($smVer), m2, k2) && smGet($smVer, m2, k2) == smGet(old($smVer), m2, k2)
+//@ assumed (*sync.Map).Range
+//@   pure
+
+// C16: the access controls that decide about a client's requests are the entry the ACL registry holds under that client's
+// own id (nothing when there is none)
+// TRUSTED-acl-registry-entries-are-lists-without-nil-entries: data invariant of the ACL registry (every value stored in it
+// is a []*AccessControl without nil entries: SetClientAccessControls stores what the security handler decoded from the
+// request body, loadAcls what acls.json holds); it was part of the former assumed contract of this function
+//@ unit (*ServiceCore).GetAccessControls
 //@   prop C16
+//@   requires-inv [TRUSTED-acl-registry-entries-are-lists-without-nil-entries] smHas($smVer, addrOf(serviceCore.accessControls), clientID) ==> typeof(smGet($smVer, addrOf(serviceCore.accessControls), clientID)) == typeid("[]*security.AccessControl") && (forall i int :: 0 <= i && i < len(cast(smGet($smVer, addrOf(serviceCore.accessControls), clientID), "[]*security.AccessControl")) ==> cast(smGet($smVer, addrOf(serviceCore.accessControls), clientID), "[]*security.AccessControl")[i] != nil)
 //@   ensures forall i int :: 0 <= i && i < len(result) ==> result[i] != nil
+//@   ensures [C16:the-access-controls-served-are-the-registry-entry-of-the-asked-client] smHas($smVer, addrOf(serviceCore.accessControls), clientID) ==> result == cast(smGet($smVer, addrOf(serviceCore.accessControls), clientID), "[]*security.AccessControl")
+//@   ensures [C16:a-client-without-registry-entry-has-no-access-controls] !smHas($smVer, addrOf(serviceCore.accessControls), clientID) ==> isnil(result)
 //@   modifies none
+//@   safe typeassert
+//@   at call Load#1 before
+//@     assert [C16:access-controls-are-read-from-the-acl-registry-under-the-asked-clients-id] $arg0 == addrOf(serviceCore.accessControls) && typeof(key) == typeid("string") && cast(key, "string") == clientID
 
 // ---------------------------------------------------------------------------
 // C14 / C16: client and ACL registries are written through to the files they are loaded from at start-up,
@@ -50,15 +83,40 @@ package security
 //@ spec clientsPath(loc string) string = loc + "/" + "clients.json"
 //@ spec aclsPath(loc string) string = loc + "/" + "acls.json"
 
-//@ assumed (*ServiceCore).GetClients
-//@   pure
-//@   ensures foreign(result) || result != nil
-//@ assumed (*ServiceCore).GetAllAccessControls
-//@   pure
-//@ assumed (*sync.Map).Delete
-//@   pure
-//@ assumed (*sync.Map).Store
-//@   pure
+// the snapshots written to clients.json / acls.json: a map of its own, filled by walking the registry the file is named after;
+// the per-entry callback records every entry it is handed under the entry's own key and never cuts the walk short (an entry
+// left out of the snapshot would be missing from the file and so be lost by the next restart).
+// TRUSTED (library link): sync.Map.Range hands the callback entries that were stored in that map; that every Store into the
+// client registry stores a string key with a *ClientInfo, and into the ACL registry a string key with a []*AccessControl, is
+// asserted at every Store site of this package (RegisterClient, SetClientAccessControls, loadClients, loadAcls).
+//@ unit (*ServiceCore).GetClients$1
+//@   prop C14 C16
+//@   requires m != nil && typeof(k) == typeid("string") && typeof(v) == typeid("*security.ClientInfo")
+//@   ensures [the-client-handed-to-the-callback-is-recorded-in-the-snapshot-under-its-own-id] has(m, cast(k, "string")) && m[cast(k, "string")] == cast(v, "*security.ClientInfo")
+//@   ensures [the-walk-over-the-client-registry-is-never-cut-short] result
+//@   ensures [entries-recorded-earlier-stay-in-the-snapshot] forall k2 string :: old(has(m, k2)) && k2 != cast(k, "string") ==> has(m, k2) && m[k2] == old(m[k2])
+//@   modifies map[string]*security.ClientInfo
+//@   safe typeassert
+//@ unit (*ServiceCore).GetClients
+//@   prop C14 C16
+//@   ensures [the-client-snapshot-is-a-map-of-its-own] result != nil && fresh(result)
+//@   modifies none
+//@   at call Range#1 before
+//@     assert [the-client-snapshot-walks-the-client-registry] $arg0 == addrOf(serviceCore.clients)
+//@ unit (*ServiceCore).GetAllAccessControls$1
+//@   prop C14 C16
+//@   requires m != nil && typeof(k) == typeid("string") && typeof(v) == typeid("[]*security.AccessControl")
+//@   ensures [the-list-handed-to-the-callback-is-recorded-in-the-snapshot-under-its-own-clients-id] has(m, cast(k, "string")) && m[cast(k, "string")] == cast(v, "[]*security.AccessControl")
+//@   ensures [the-walk-over-the-acl-registry-is-never-cut-short] result
+//@   ensures [entries-recorded-earlier-stay-in-the-snapshot] forall k2 string :: old(has(m, k2)) && k2 != cast(k, "string") ==> has(m, k2) && m[k2] == old(m[k2])
+//@   modifies map[string][]*security.AccessControl
+//@   safe typeassert
+//@ unit (*ServiceCore).GetAllAccessControls
+//@   prop C14 C16
+//@   ensures [the-acl-snapshot-is-a-map-of-its-own] result != nil && fresh(result)
+//@   modifies none
+//@   at call Range#1 before
+//@     assert [the-acl-snapshot-walks-the-acl-registry] $arg0 == addrOf(serviceCore.accessControls)
 //@ assumed (*sync.Mutex).Lock
 //@   pure
 //@ assumed (*sync.Mutex).Unlock
@@ -70,8 +128,12 @@ package security
 //@   ghost jsonG int = 0
 //@   requires serviceCore != nil
 //@   ghost updatedG bool = false
+//@   modifies $smVer, $fileData, $held, $acq
+//@   ensures [C16:after-the-update-the-acl-registry-holds-exactly-the-new-list-for-this-client] smHas($smVer, addrOf(serviceCore.accessControls), clientID) && typeof(smGet($smVer, addrOf(serviceCore.accessControls), clientID)) == typeid("[]*security.AccessControl") && cast(smGet($smVer, addrOf(serviceCore.accessControls), clientID), "[]*security.AccessControl") == acls
+//@   ensures [C16:no-other-clients-access-controls-and-no-client-registration-change] forall m2 int, k2 string :: (m2 != addrOf(serviceCore.accessControls) || k2 != clientID) ==> smHas($smVer, m2, k2) == smHas(old($smVer), m2, k2) && smGet($smVer, m2, k2) == smGet(old($smVer), m2, k2)
 //@   at call Store#1 before
 //@     assert [the-registry-entry-of-this-client-is-replaced] cast(key, "string") == clientID
+//@     assert [C16:access-controls-are-stored-in-the-acl-registry-as-a-list-of-access-controls] $arg0 == addrOf(serviceCore.accessControls) && typeof(key) == typeid("string") && typeof(value) == typeid("[]*security.AccessControl") && cast(value, "[]*security.AccessControl") == acls
 //@   at call Store#1
 //@     ghost updatedG := true
 //@   at call GetAllAccessControls#1 before
@@ -91,8 +153,12 @@ package security
 //@   ghost jsonG int = 0
 //@   requires serviceCore != nil
 //@   ghost updatedG bool = false
+//@   modifies $smVer, $fileData, $held, $acq
+//@   ensures [C16:after-the-removal-the-acl-registry-holds-nothing-for-this-client] !smHas($smVer, addrOf(serviceCore.accessControls), clientID)
+//@   ensures [C16:no-other-clients-access-controls-and-no-client-registration-change] forall m2 int, k2 string :: (m2 != addrOf(serviceCore.accessControls) || k2 != clientID) ==> smHas($smVer, m2, k2) == smHas(old($smVer), m2, k2) && smGet($smVer, m2, k2) == smGet(old($smVer), m2, k2)
 //@   at call Delete#1 before
 //@     assert [the-registry-entry-of-this-client-is-removed] cast(key, "string") == clientID
+//@     assert [C16:access-controls-are-removed-from-the-acl-registry] $arg0 == addrOf(serviceCore.accessControls) && typeof(key) == typeid("string")
 //@   at call Delete#1
 //@     ghost updatedG := true
 //@   at call GetAllAccessControls#1 before
@@ -112,8 +178,16 @@ package security
 //@   ghost jsonG int = 0
 //@   requires serviceCore != nil && clientInfo != nil
 //@   ghost updatedG bool = false
+//@   modifies $smVer, $fileData, $held, $acq
+//@   ensures [C16:a-removed-client-is-gone-from-the-client-registry-and-has-no-access-controls-left] old(clientInfo.Deleted) ==> !smHas($smVer, addrOf(serviceCore.clients), old(clientInfo.ClientID)) && !smHas($smVer, addrOf(serviceCore.accessControls), old(clientInfo.ClientID))
+//@   ensures [C16:a-registered-client-is-in-the-client-registry-under-its-own-id] !old(clientInfo.Deleted) ==> smHas($smVer, addrOf(serviceCore.clients), old(clientInfo.ClientID)) && typeof(smGet($smVer, addrOf(serviceCore.clients), old(clientInfo.ClientID))) == typeid("*security.ClientInfo") && cast(smGet($smVer, addrOf(serviceCore.clients), old(clientInfo.ClientID)), "*security.ClientInfo") == clientInfo
+//@   ensures [C16:no-other-clients-registration-or-access-controls-change] forall m2 int, k2 string :: k2 != old(clientInfo.ClientID) ==> smHas($smVer, m2, k2) == smHas(old($smVer), m2, k2) && smGet($smVer, m2, k2) == smGet(old($smVer), m2, k2)
+//@   ensures [C16:registering-a-client-leaves-every-access-control-list-alone] !old(clientInfo.Deleted) ==> (forall k2 string :: smHas($smVer, addrOf(serviceCore.accessControls), k2) == smHas(old($smVer), addrOf(serviceCore.accessControls), k2) && smGet($smVer, addrOf(serviceCore.accessControls), k2) == smGet(old($smVer), addrOf(serviceCore.accessControls), k2))
 //@   at call Delete#1 before
 //@     assert [the-registry-entry-of-this-client-is-removed] cast(key, "string") == clientInfo.ClientID
+//@     assert [C16:clients-are-removed-from-the-client-registry] $arg0 == addrOf(serviceCore.clients) && typeof(key) == typeid("string")
+//@   at call Store#1 before
+//@     assert [C16:clients-are-registered-in-the-client-registry] $arg0 == addrOf(serviceCore.clients) && typeof(key) == typeid("string") && typeof(value) == typeid("*security.ClientInfo")
 //@   at call Delete#1
 //@     ghost updatedG := true
 //@   at call DeleteClientAccessControls#1 before
@@ -133,17 +207,49 @@ package security
 //@   at call WriteFile#1 before
 //@     assert [client-registry-written-to-the-file-it-is-loaded-from] filename == clientsPath(serviceCore.Location) && arrOf(data) == jsonG
 
+// reload at start-up: the file read is the one the write-through path writes; it is decoded into the map the loop walks; every
+// entry of that map ends up in the registry it belongs to, under its own key (so nothing the file holds is lost by a restart)
+//@ assumed json.Unmarshal
+//@   modifies map[string]*security.ClientInfo, map[string][]*security.AccessControl, Cell.mapLstringR_security_ClientInfo, Cell.mapLstringRLR_security_AccessControl, ClientInfo.*, AccessControl.*, []*security.AccessControl, []uint8, ProviderConfig.*, ValueReader.*
 //@ unit (*ServiceCore).loadClients
 //@   prop C14 C16
+//@   ghost dataG slice
 //@   requires serviceCore != nil
+//@   modifies $smVer, map[string]*security.ClientInfo, map[string][]*security.AccessControl, Cell.*, ClientInfo.*, AccessControl.*, []*security.AccessControl, []uint8, ProviderConfig.*, ValueReader.*
+//@   at loop 1 exit
+//@     assert [C14,C16:every-client-the-file-holds-is-registered-again-under-its-own-id] forall k string :: has(clients, k) ==> smHas($smVer, addrOf(serviceCore.clients), k) && typeof(smGet($smVer, addrOf(serviceCore.clients), k)) == typeid("*security.ClientInfo") && cast(smGet($smVer, addrOf(serviceCore.clients), k), "*security.ClientInfo") == clients[k]
+//@   ensures [C14,C16:reloading-clients-leaves-the-acl-registry-alone] forall k string :: smHas($smVer, addrOf(serviceCore.accessControls), k) == smHas(old($smVer), addrOf(serviceCore.accessControls), k) && smGet($smVer, addrOf(serviceCore.accessControls), k) == smGet(old($smVer), addrOf(serviceCore.accessControls), k)
 //@   at call ReadFile#1 before
 //@     assert [client-registry-loaded-from-the-file-it-is-written-to] filename == clientsPath(serviceCore.Location)
+//@   at call ReadFile#1
+//@     ghost dataG := $result0
+//@   at call Unmarshal#1 before
+//@     assert [C14,C16:the-client-registry-is-decoded-from-what-the-client-file-holds] $arg0 == dataG
+//@   at call Store#1 before
+//@     assert [C14,C16:a-reloaded-client-goes-into-the-client-registry-under-its-own-id] $arg0 == addrOf(serviceCore.clients) && typeof(key) == typeid("string") && cast(key, "string") == clientID && typeof(value) == typeid("*security.ClientInfo") && cast(value, "*security.ClientInfo") == clients[clientID]
+//@   loop 1
+//@     invariant [C14,C16:every-client-walked-so-far-is-registered] forall k string :: visited(k) ==> smHas($smVer, addrOf(serviceCore.clients), k) && typeof(smGet($smVer, addrOf(serviceCore.clients), k)) == typeid("*security.ClientInfo") && cast(smGet($smVer, addrOf(serviceCore.clients), k), "*security.ClientInfo") == clients[k]
+//@     invariant [C14,C16:the-acl-registry-is-left-alone] forall k string :: smHas($smVer, addrOf(serviceCore.accessControls), k) == smHas(old($smVer), addrOf(serviceCore.accessControls), k) && smGet($smVer, addrOf(serviceCore.accessControls), k) == smGet(old($smVer), addrOf(serviceCore.accessControls), k)
 
 //@ unit (*ServiceCore).loadAcls
 //@   prop C14 C16
+//@   ghost dataG slice
 //@   requires serviceCore != nil
+//@   modifies $smVer, map[string]*security.ClientInfo, map[string][]*security.AccessControl, Cell.*, ClientInfo.*, AccessControl.*, []*security.AccessControl, []uint8, ProviderConfig.*, ValueReader.*
+//@   at loop 1 exit
+//@     assert [C14,C16:every-access-control-list-the-file-holds-is-in-force-again-for-its-own-client] forall k string :: has(acls, k) ==> smHas($smVer, addrOf(serviceCore.accessControls), k) && typeof(smGet($smVer, addrOf(serviceCore.accessControls), k)) == typeid("[]*security.AccessControl") && cast(smGet($smVer, addrOf(serviceCore.accessControls), k), "[]*security.AccessControl") == acls[k]
+//@   ensures [C14,C16:reloading-access-controls-leaves-the-client-registry-alone] forall k string :: smHas($smVer, addrOf(serviceCore.clients), k) == smHas(old($smVer), addrOf(serviceCore.clients), k) && smGet($smVer, addrOf(serviceCore.clients), k) == smGet(old($smVer), addrOf(serviceCore.clients), k)
 //@   at call ReadFile#1 before
 //@     assert [acl-registry-loaded-from-the-file-it-is-written-to] filename == aclsPath(serviceCore.Location)
+//@   at call ReadFile#1
+//@     ghost dataG := $result0
+//@   at call Unmarshal#1 before
+//@     assert [C14,C16:the-acl-registry-is-decoded-from-what-the-acl-file-holds] $arg0 == dataG
+//@   at call Store#1 before
+//@     assert [C14,C16:a-reloaded-access-control-list-goes-into-the-acl-registry-under-its-own-clients-id] $arg0 == addrOf(serviceCore.accessControls) && typeof(key) == typeid("string") && cast(key, "string") == clientID && typeof(value) == typeid("[]*security.AccessControl")
+//@   loop 1
+//@     invariant [C14,C16:every-access-control-list-walked-so-far-is-in-force] forall k string :: visited(k) ==> smHas($smVer, addrOf(serviceCore.accessControls), k) && typeof(smGet($smVer, addrOf(serviceCore.accessControls), k)) == typeid("[]*security.AccessControl") && cast(smGet($smVer, addrOf(serviceCore.accessControls), k), "[]*security.AccessControl") == acls[k]
+//@     invariant [C14,C16:the-client-registry-is-left-alone] forall k string :: smHas($smVer, addrOf(serviceCore.clients), k) == smHas(old($smVer), addrOf(serviceCore.clients), k) && smGet($smVer, addrOf(serviceCore.clients), k) == smGet(old($smVer), addrOf(serviceCore.clients), k)
 
 // ---------------------------------------------------------------------------
 // C16: the dataset list served to a non-admin client holds only datasets whose path /datasets/<name> the client's own
@@ -163,6 +269,16 @@ package security
 //@     ghost grantedG := $result
 //@   at call append#1 before
 //@     assert [C16:only-datasets-granted-for-reading-are-listed] grantedG && len($arg1) == 1 && $arg1[0].Name == datasets[$i1 + 1].Name
+//@     ghost srcG := put(srcG, len(result), $i1 + 1)
+// the list as a whole: entry j of the list served is input dataset srcG[j], which was granted when it was appended (assert
+// above); the entries keep the input order, so no dataset is listed twice and none is invented
+//@   ghost srcG intmap
+//@   ensures [C16:the-list-served-holds-only-input-datasets-each-appended-after-its-own-grant] ret1 == nil && (forall j int :: 0 <= j && j < len(ret0) ==> 0 <= srcG[j] && srcG[j] < len(datasets) && ret0[j].Name == datasets[srcG[j]].Name)
+//@   ensures [C16:the-list-served-keeps-the-input-order-without-repeats] forall j int, k int :: 0 <= j && j < k && k < len(ret0) ==> srcG[j] < srcG[k]
+//@   loop 1
+//@     invariant -1 <= $i && $i < len(datasets) && !foreign(result)
+//@     invariant [C16:every-dataset-listed-so-far-is-an-input-dataset-appended-after-its-own-grant] forall j int :: 0 <= j && j < len(result) ==> 0 <= srcG[j] && srcG[j] <= $i && result[j].Name == datasets[srcG[j]].Name
+//@     invariant [C16:listed-so-far-in-input-order] forall j int, k int :: 0 <= j && j < k && k < len(result) ==> srcG[j] < srcG[k]
 
 // ---------------------------------------------------------------------------
 // C14: login providers are looked up by lower-cased name; the registry reloaded at start-up is keyed the same way
@@ -173,12 +289,129 @@ package security
 //@   ensures result == lower(s)
 //@ assumed (*TokenProviders).toProvider
 //@   pure
-//@ assumed (*ProviderManager).ListProviders
-//@   pure
+// the persisted side of the provider registry: a provider is stored in, read from, listed from and deleted from the login
+// provider collection of the store under its name; what the caller is told is what the store reported
+//@ assumed (*server.Store).DeleteObject
+//@   modifies $persisted
+//@   ensures result == nil ==> $persisted == put(old($persisted), id, false)
+//@   ensures result != nil ==> $persisted == old($persisted)
+//@ assumed (*server.Store).GetObject
+//@   modifies ProviderConfig.*, ValueReader.*
+//@ assumed (*server.Store).IterateObjectsRaw
+//@   requires [C14:providers-are-listed-from-the-login-provider-collection-they-are-persisted-in] prefix == LoginProviderIndexBytes
+//@   modifies Cell.LRsecurity_ProviderConfig, []security.ProviderConfig
+//@ unit (*ProviderManager).AddProvider
+//@   prop C14
+//@   ghost errG iface
+//@   requires pm != nil
+//@   modifies $persisted, $storeAttempted
+//@   ensures [C14:the-caller-is-told-what-the-store-reported] result == errG
+//@   ensures [C14:an-acknowledged-provider-is-persisted-under-its-name] result == nil ==> has($persisted, providerConfig.Name)
+//@   at call StoreObject#1 before
+//@     assert [C14:a-login-provider-is-persisted-in-the-login-provider-collection-under-its-own-name] $arg0 == pm.store && collection == 17 && id == providerConfig.Name && typeof(data) == typeid("security.ProviderConfig")
+//@   at call StoreObject#1
+//@     ghost errG := $result
+//@ unit (*ProviderManager).DeleteProvider
+//@   prop C14
+//@   ghost errG iface
+//@   requires pm != nil
+//@   modifies $persisted
+//@   ensures [C14:the-caller-is-told-what-the-store-reported] result == errG
+//@   ensures [C14:an-acknowledged-delete-removed-the-persisted-provider-of-that-name] result == nil ==> !has($persisted, name)
+//@   at call DeleteObject#1 before
+//@     assert [C14:a-login-provider-is-deleted-from-the-login-provider-collection-under-the-given-name] $arg0 == pm.store && collection == 17 && id == name
+//@   at call DeleteObject#1
+//@     ghost errG := $result
+//@ unit (*ProviderManager).FindByName
+//@   prop C14
+//@   ghost errG iface
+//@   requires pm != nil && ErrLoginProviderNotFound != nil
+//@   ensures [C14:a-provider-is-handed-back-only-if-the-store-read-succeeded-and-found-one] ret1 == nil ==> errG == nil && ret0 != nil && ret0.Name != ""
+//@   ensures [C14:a-failed-store-read-is-reported] errG != nil ==> ret1 == errG && ret0 == nil
+//@   ensures [C14:a-missing-provider-is-reported-as-not-found] errG == nil && ret1 != nil ==> ret1 == ErrLoginProviderNotFound && ret0 == nil
+//@   at call GetObject#1 before
+//@     assert [C14:a-login-provider-is-read-from-the-login-provider-collection-under-the-given-name] $arg0 == pm.store && collection == 17 && id == name && typeof(obj) == typeid("*security.ProviderConfig") && cast(obj, "*security.ProviderConfig") == config
+//@   at call GetObject#1
+//@     ghost errG := $result
+// listing (used by the reload at start-up): the login provider collection is walked; every stored object is decoded into a
+// provider of its own and appended, in order; a record that cannot be decoded aborts the listing with the error
+//@ unit (*ProviderManager).ListProviders$1
+//@   prop C14
+//@   ghost errG iface
+//@   ensures [C14:a-record-that-cannot-be-decoded-is-reported-and-adds-nothing] errG != nil ==> result == errG && len(providers) == old(len(providers))
+//@   ensures [C14:every-decoded-record-is-appended-to-the-listing] errG == nil ==> result == nil && len(providers) == old(len(providers)) + 1
+//@   ensures [C14:providers-listed-earlier-stay-listed] forall i int :: 0 <= i && i < old(len(providers)) ==> providers[i].Name == old(providers[i].Name)
+//@   at call Unmarshal#1 before
+//@     assert [C14:the-record-at-hand-is-decoded] $arg0 == bytes && typeof($arg1) == typeid("*security.ProviderConfig")
+//@   at call Unmarshal#1
+//@     ghost errG := $result
+//@ unit (*ProviderManager).ListProviders
+//@   prop C14
+//@   ghost errG iface
+//@   requires pm != nil
+//@   modifies Cell.LRsecurity_ProviderConfig, []security.ProviderConfig
+//@   ensures [C14:the-caller-is-told-what-the-walk-reported] ret1 == errG
+//@   at call IterateObjectsRaw#1 before
+//@     assert [C14:providers-are-listed-from-the-managers-own-store] $arg0 == pm.store
+//@   at call IterateObjectsRaw#1
+//@     ghost errG := $result
+//@   at return
+//@     assert [C14:the-listing-handed-back-is-the-one-the-walk-filled] ret0 == providers
+
+// the in-memory side: lookups find exactly what the registry holds under the asked key; a new provider is registered under
+// its lower-cased name (the key every caller looks up) and the very same configuration is persisted; a delete removes the
+// asked entry from the registry and then the persisted provider of that name; errors of the store reach the caller
+//@ unit (*TokenProviders).Get
+//@   prop C14
+//@   modifies none
+//@   at return
+//@     assert [C14:a-provider-is-found-exactly-when-the-registry-holds-one-under-the-asked-name] (ret1 <==> has(pmap, providerName)) && (ret1 ==> ret0 == pmap[providerName]) && (!ret1 ==> ret0 == nil)
+//@ unit (*TokenProviders).Add
+//@   prop C14
+//@   ghost errG iface
+//@   ghost provG iface
+//@   requires providers != nil && providers.Providers != nil && providers.pm != nil
+//@   modifies $persisted, $storeAttempted, map[string]security.Provider
+//@   ensures [C14:the-caller-is-told-what-persisting-reported] result == errG
+//@   ensures [C14:an-acknowledged-provider-is-persisted-under-its-name] result == nil ==> has($persisted, providerConfig.Name)
+//@   at call toProvider#1 before
+//@     assert [C14:the-provider-registered-is-built-from-the-given-configuration] $arg1.Name == providerConfig.Name && $arg1.Type == providerConfig.Type
+//@   at call toProvider#1
+//@     ghost provG := $result
+//@   at call AddProvider#1 before
+//@     assert [C14:a-new-provider-is-registered-under-the-lower-cased-name-every-lookup-uses] pmap != nil ==> has(pmap, lower(providerConfig.Name))
+//@     assert [C14:the-registry-entry-is-the-provider-built-from-the-configuration] pmap[lower(providerConfig.Name)] == provG
+//@     assert [C14:the-configuration-persisted-is-the-one-registered] $arg0 == providers.pm && $arg1.Name == providerConfig.Name && $arg1.Type == providerConfig.Type
+//@   at call AddProvider#1
+//@     ghost errG := $result
+//@ unit (*TokenProviders).DeleteProvider
+//@   prop C14
+//@   ghost foundG bool = false
+//@   ghost removedG bool = false
+//@   ghost errG iface
+//@   requires providers != nil && providers.Providers != nil && providers.pm != nil && ErrLoginProviderNotFound != nil
+//@   modifies $persisted, map[string]security.Provider
+//@   ensures [C14:an-unknown-provider-is-reported-and-nothing-persisted-is-deleted] !foundG ==> result == ErrLoginProviderNotFound && $persisted == old($persisted)
+//@   ensures [C14:the-caller-is-told-what-the-store-reported] foundG ==> result == errG
+//@   at call Get#1 before
+//@     assert [C14:the-registry-is-asked-about-the-given-name] $arg1 == name
+//@   at call Get#1
+//@     ghost foundG := $result1
+//@   at call delete#1 before
+//@     assert [C14:the-registry-entry-removed-is-the-one-asked-for] foundG && $arg1 == name
+//@     ghost removedG := true
+//@   at call DeleteProvider#1 before
+//@     assert [C14:the-persisted-provider-removed-is-the-one-removed-from-the-registry] removedG && $arg0 == providers.pm && $arg1 == name
+//@   at call DeleteProvider#1
+//@     ghost errG := $result
+
 //@ unit security.NewTokenProviders
 //@   prop C14
 //@   requires providerManager != nil && logger != nil
 //@   at return
 //@     assert [C14:reloaded-login-providers-are-registered-under-the-lower-cased-name-every-lookup-uses] forall k string :: has(providers, k) ==> lower(k) == k
+//@   at loop 1 exit
+//@     assert [C14:every-persisted-login-provider-the-listing-returned-is-registered-again-under-its-lower-cased-name] forall j int :: 0 <= j && j < len(providerList) ==> has(providers, lower(providerList[j].Name))
 //@   loop 1
 //@     invariant forall k string :: has(providers, k) ==> lower(k) == k
+//@     invariant [C14:every-listed-provider-walked-so-far-is-registered] -1 <= $i && $i < len(providerList) && (forall j int :: 0 <= j && j <= $i ==> has(providers, lower(providerList[j].Name)))
